@@ -181,6 +181,7 @@ def stepLine (s : Irc) : List String → Option (Irc × List Ev)
   | ["send", m] => do
     let m' ← decMsg m
     pure (step s (.send m'))
+  | ["noop"] => some (s, [])       -- `queueMsg(x)` with `x` no IrcMsg: the caller gets an exception, nothing changes
   | ["take"] => some (step s .take)
   | ["die"] => some (step s .die)
   | ["reset"] => some (step s .reset)
